@@ -1361,32 +1361,26 @@ impl fmt::Display for Expr {
                 )
             }
             Expr::UnaryOp { op, expr } => {
-                // Two adjacent symbolic operators need a blank between them, otherwise they
-                // read as another token: `- -x` as the comment `--x`, `@ @x` as `@@x`,
-                // `x! !` as `x!!`.
-                let operand_is_symbolic_prefix = matches!(
-                    expr.as_ref(),
-                    Expr::UnaryOp { op: inner, .. }
-                        if *inner != UnaryOperator::PGPostfixFactorial
-                            && *inner != UnaryOperator::Not
-                );
-                let operand_is_postfix = matches!(
-                    expr.as_ref(),
-                    Expr::UnaryOp {
-                        op: UnaryOperator::PGPostfixFactorial,
-                        ..
-                    }
-                );
+                // A symbolic operator written directly against an operand whose text begins
+                // (or, for the postfix `!`, ends) with an operator character would read as
+                // another token: `- -x` as the comment `--x`, `~ -x * y` as the PostgreSQL
+                // operator `~-`, `@ @x` as `@@x`, `x! !` as `x!!`. A blank keeps them apart.
                 if op == &UnaryOperator::PGPostfixFactorial {
-                    if operand_is_postfix {
-                        write!(f, "{expr} {op}")
+                    let operand = expr.to_string();
+                    if operand.ends_with('!') {
+                        write!(f, "{operand} {op}")
                     } else {
-                        write!(f, "{expr}{op}")
+                        write!(f, "{operand}{op}")
                     }
-                } else if op == &UnaryOperator::Not || operand_is_symbolic_prefix {
+                } else if op == &UnaryOperator::Not {
                     write!(f, "{op} {expr}")
                 } else {
-                    write!(f, "{op}{expr}")
+                    let operand = expr.to_string();
+                    if operand.starts_with(|c: char| "+-*/<>=~!@#%^&|?".contains(c)) {
+                        write!(f, "{op} {operand}")
+                    } else {
+                        write!(f, "{op}{operand}")
+                    }
                 }
             }
             Expr::Convert {
